@@ -33,10 +33,12 @@ def _check_structural_constraint(must_link, cannot_link):
             samples_to_explore.remove(node)
 
         for i, j in itertools.combinations(reacheable_nodes, r=2):
+            # Nodes of the graph are positions in unique_indices: translate them back to sample indices
+            sample_i, sample_j = unique_indices[i], unique_indices[j]
 
             for pair in cannot_link:
                 pair_i, pair_j = pair
-                if (i == pair_i and j == pair_j) or (i == pair_j and j == pair_i):
+                if (sample_i == pair_i and sample_j == pair_j) or (sample_i == pair_j and sample_j == pair_i):
                     raise ValueError("Triangular contradiction in Must-link / Cannot-link constraints")
 
 
